@@ -30,9 +30,18 @@ fn loopback(family: &str) -> Option<&'static str> {
     }
 }
 
+/// read timeout `ms`; the write and connect timeouts are deliberately much longer and different from each other, so that
+/// a blocked receive bounded by anything but the READ timeout (or a connect bounded by the wrong one) shows on the clock
 fn settings(ms: u64, retries: usize) -> Option<TimeoutSettings> {
-    let d = Some(Duration::from_millis(ms));
-    Some(TimeoutSettings::new(d, d, d, retries).unwrap())
+    Some(
+        TimeoutSettings::new(
+            Some(Duration::from_millis(ms)),
+            Some(Duration::from_millis(ms * 10 + 2000)),
+            Some(Duration::from_millis(ms * 10 + 3000)),
+            retries,
+        )
+        .unwrap(),
+    )
 }
 
 /// `realudp <v4|v6> <timeout_ms> <engine> <gather> <retries> <script>`: a UDP server that answers the n-th
